@@ -310,6 +310,10 @@ func forInnerLabels(f *forExpander) forStateFn {
 			f.next()
 			return forInnerLabels
 		}
+	case tokColon:
+		// a colon after a label: the opcode (or 'for'/'rof') is still to come
+		f.next()
+		return forInnerLabels
 	default:
 		// not expecting legal input here, but we will let the parser deal with it
 		return forInnerEmitLabels
